@@ -53,6 +53,13 @@ DATA = {"_expected", "_error_acceptable", "bits", "_bit_properties", "enumerator
         "__firstlineno__", "__static_attributes__", "__orig_bases__", "__parameters__"}
 
 
+NOT_OBSERVED = {"__repr__", "__hash__", "__eq__", "__ne__", "__lt__", "__le__", "__gt__", "__ge__", "__slots__",
+                "__match_args__", "__dataclass_fields__", "__dataclass_params__", "__abstractmethods__",
+                "__sizeof__", "__dir__", "__class_getitem__", "__copy__", "__deepcopy__", "__reduce__",
+                "__reduce_ex__", "__getstate__", "__setstate__", "__getnewargs__", "__getnewargs_ex__",
+                "__subclasshook__", "__type_params__", "__protocol_attrs__", "__non_callable_proto_members__"}
+
+
 def lstr(s):
     out = []
     for ch in s:
@@ -227,6 +234,12 @@ def describe(cls, users):
                 extras.append((n, EXTRA[ok][1]))
                 continue
             dunder = n.startswith("__") and n.endswith("__")
+            if dunder and n in NOT_OBSERVED:
+                # special methods that cannot change what the accessors of C06 return or how `str()` renders:
+                # debugging aids, hashing / comparison of response objects, copying and pickling hooks (the
+                # copies themselves are observed by the harness), class-level bookkeeping
+                ignored.append(n)
+                continue
             if n in bitkeys or dunder:
                 # a class attribute of this name hides the named bit's property (found before __getattr__),
                 # and an unknown special method may change how the object is built, compared or rendered:
